@@ -185,6 +185,38 @@ func ParamInt(name string, def int) int {
 	return int(n)
 }
 
+// All / Any / Not combine conditions without short-circuit branches (no path forks under symgo).
+func All(cs ...bool) bool {
+	for _, c := range cs {
+		if !c {
+			return false
+		}
+	}
+	return true
+}
+func Any(cs ...bool) bool {
+	for _, c := range cs {
+		if c {
+			return true
+		}
+	}
+	return false
+}
+func Implies(a, b bool) bool { return !a || b }
+
+// BytesEq compares two byte slices of concrete length without forking.
+func BytesEq(a, b []byte) bool {
+	if len(a) != len(b) {
+		return false
+	}
+	for i := range a {
+		if a[i] != b[i] {
+			return false
+		}
+	}
+	return true
+}
+
 // Symbolic reports whether the code runs under the symbolic executor.
 func Symbolic() bool { return false }
 
@@ -418,4 +450,27 @@ func CtxCause(ctx context.Context) error {
 	}
 	c.refresh()
 	return c.cause
+}
+
+// ---------- summaries of pure library kernels (symbolic mode: redirected here) ----------
+// The real functions fold the 32-bit one's-complement sum in a data-dependent loop ("while csum > 0xffff").
+// Two folds are enough for every 32-bit value and a fold is the identity below 0x10000, so the loop equals
+// fold(fold(csum)); the equivalence with the real code is itself checked by the solver (selftest harnesses
+// Verif_Self_fold / Verif_Self_ip4csum run the real functions with the redirect switched off).
+
+func fold16(c uint32) uint32 { return (c >> 16) + (c & 0xffff) }
+
+// ModelFoldChecksum summarises github.com/google/gopacket.FoldChecksum.
+func ModelFoldChecksum(csum uint32) uint16 { return ^uint16(fold16(fold16(csum))) }
+
+// ModelIPv4Checksum summarises github.com/google/gopacket/layers.checksum.
+func ModelIPv4Checksum(bytes []byte) uint16 {
+	bytes[10] = 0
+	bytes[11] = 0
+	var csum uint32
+	for i := 0; i < len(bytes); i += 2 {
+		csum += uint32(bytes[i]) << 8
+		csum += uint32(bytes[i+1])
+	}
+	return ^uint16(fold16(fold16(csum)))
 }
